@@ -309,7 +309,7 @@ class bicgstabl {
                 // Symmetrize MZa
                 for (int i = 0; i <= L; ++i) {
                     for (int j = i+1; j <= L; ++j) {
-                        MZa(i, j) = MZa(j, i) = math::adjoint(MZa(j, i));
+                        MZa(i, j) = math::adjoint(MZa(j, i));
                     }
                 }
 
@@ -318,17 +318,17 @@ class bicgstabl {
                 if (prm.convex || L == 1) {
                     Y0[0] = -one;
 
-                    qr.solve(L, L, MZa.stride(0), MZa.stride(1),
+                    qr.solve(L, L, MZa.stride(1), MZa.stride(0),
                             &MZa(1, 1), &MZb(0, 1), &Y0[1]);
                 } else {
                     Y0[0] = -one;
                     Y0[L] = zero;
-                    qr.solve(L-1, L-1, MZa.stride(0), MZa.stride(1),
+                    qr.solve(L-1, L-1, MZa.stride(1), MZa.stride(0),
                             &MZa(1, 1), &MZb(0, 1), &Y0[1]);
 
                     YL[0] = zero;
                     YL[L] = -one;
-                    qr.solve(L-1, L-1, MZa.stride(0), MZa.stride(1),
+                    qr.solve(L-1, L-1, MZa.stride(1), MZa.stride(0),
                             &MZa(1, 1), &MZb(L, 1), &YL[1], /*computed=*/true);
 
                     coef_type dot0 = zero;
